@@ -464,11 +464,13 @@ class ShimTime:
 
 
 class ShimDatetimeClass:
-    def __init__(self, sched):
+    def __init__(self, sched, offset=0.0):
         self._s = sched
+        self._offset = offset           # seconds after midnight at virtual time 0
 
     def now(self, tz=None):
-        return BASE + _real_datetime.timedelta(seconds=self._s.now)
+        self._s.point('datetime-now')   # reading the wall clock is an observation of shared state (time)
+        return BASE + _real_datetime.timedelta(seconds=self._s.now + self._offset)
 
 
 class ShimThreadingModule:
